@@ -1,6 +1,6 @@
 (* C03 — Binary wavelet trees (plain and Huffman-shaped) answer get/rank/select exactly.
    Statements only, closed by [exact]. *)
-From QwtModel Require Import ListX Seq Consts Words QWT Huff RSBin RSQBuild Codes WordsP BinWTP CraftP.
+From QwtModel Require Import ListX Seq Consts Words QWT Huff RSBin RSQBuild Codes WordsP BinWTP CraftP WrapP.
 
 Definition C03_plain_contract (w : N) (t : bwt) (seq : list N) : Prop :=
   w_n t = len seq /\
@@ -63,3 +63,25 @@ Theorem C03_craft2_compatible : forall f sigma scratch tab,
   code_wm_ok 1 tab (map fst f) = true.
 Proof. exact (craft_table_ok 1). Qed.
 Print Assumptions C03_craft2_compatible.
+
+(* end to end: HWT::new = code builder (on the lengths f of the external coder, any tie order)
+   followed by the tree builder; [lengths_for2 seq f]: f lists exactly the distinct symbols of
+   seq with admissible lengths.  The second form replaces "the code builder returned" by the
+   explicit sufficient condition (lengths <= 32 bits — KF-17 — and the scratch array fits). *)
+Theorem C03_new_end_to_end : forall w seq f, width_ok w -> Forall (fun x => x < 2 ^ w) seq ->
+  len seq < RSQ_MAXN -> seq <> [] -> maxN seq < 2 ^ 64 - 1 -> lengths_for2 seq f ->
+  forall tab, craft2 f (sym_index (maxN seq)) = Val tab ->
+  exists t, hwt_new w seq f = Val t /\ C03_huffman_contract w t seq.
+Proof. exact hwt_new_correct. Qed.
+Print Assumptions C03_new_end_to_end.
+
+Theorem C03_new_total : forall w seq f, width_ok w -> Forall (fun x => x < 2 ^ w) seq ->
+  len seq < RSQ_MAXN -> seq <> [] -> maxN seq < 2 ^ 64 - 1 ->
+  lengths_for2 seq f -> Forall (fun p => snd p <= 32) f -> craft_fits 1 f (N.max (len f) 2) = true ->
+  exists t, hwt_new w seq f = Val t /\ C03_huffman_contract w t seq.
+Proof. exact hwt_new_total. Qed.
+Print Assumptions C03_new_total.
+
+Theorem C03_new_empty : forall w f, exists t, hwt_new w [] f = Val t /\ C03_huffman_contract w t [].
+Proof. exact hwt_new_nil. Qed.
+Print Assumptions C03_new_empty.
